@@ -974,3 +974,12 @@ Proof. vm_compute. auto. Qed.
 Example ex_failure_cleans :
   s_dir (run (fun _ => 0) ex_wdata [] [EStep 0 7; EStep 0 40; EFail 0]) = [].
 Proof. vm_compute. reflexivity. Qed.
+
+(* the hypothesis `zlen v < 256` of other_version is necessary: the length byte wraps, and an entry
+   written under a 256-byte version is read as a (code-less) module by a reader whose version is empty *)
+Example ex_long_version_accepted :
+  match serialize crc32c (repeat 0 256) ex_nocode with
+  | Some e => deserialize crc32c [] e = Ok ex_nocode
+  | None => False
+  end.
+Proof. vm_compute. reflexivity. Qed.
